@@ -23,7 +23,7 @@ lane() {
     WT=/tmp/vreg-wt-$k
     git -C /repo worktree remove --force $WT 2>/dev/null; rm -rf $WT
     git -C /repo worktree add -q --detach $WT HEAD || continue
-    if ! git -C $WT apply /verif/seeded/$name/patch.diff 2>/dev/null; then
+    if ! git -C $WT apply /verif/seeded/$name/patch.diff 2>/dev/null && ! git -C $WT apply --3way /verif/seeded/$name/patch.diff 2>/dev/null; then
       echo "$name no-apply" > /tmp/vreg-results/$name.txt
     else
       out=$(cd $V && VERIF_REPO=$WT timeout 1500 ./check $P quick 2>&1 | grep -v KNOWN | tail -3)
